@@ -82,17 +82,14 @@ def scenario_of(model, inputs, script, threads=0, config=None, opts_for=None):
 
 
 def node_ids(model):
+    from .flow import kids
     out = set()
 
     def walk(n):
         if n.get("id"):
             out.add(n["id"])
-        for key in ("steps", "branches", "acts", "setup"):
-            for s in n.get(key, []) or []:
-                walk(s)
-        for c in (n.get("catches", []) or []) + (n.get("timeout", []) or []):
-            for s in c.get("steps", []) or []:
-                walk(s)
+        for k2, c, _ in kids(n):
+            walk(c)
 
     walk(model)
     return out
